@@ -7,7 +7,7 @@ ASSUMPTIONS = [
     'the request frame of each call is taken from the real client (request construction is modelled under C01); '
     'the model covers send_request and the decorator',
 ]
-RULE = ('call suite: every one of the 80 client entry points x all 256 codes in a 0x7F frame for the pending service x k in 0..3 preceding 0x78 frames x '
+RULE = ('call suite: every one of the 80 client entry points x the three editions (standard_version 2006 / 2013 / 2020; a call the edition refuses locally is run under 2020) x all 256 codes in a 0x7F frame for the pending service x k in 0..3 preceding 0x78 frames x '
         'trailing bytes x exception_on_negative_response (quick: all entry points x all codes with one random (k, tail, switch) each; thorough: the full product). '
         'distinct = distinct (call, code, k, tail, switch); non-trivial = all')
 
@@ -49,17 +49,22 @@ def suite_call(ctx):
             else:
                 combos.append((code, rng.randrange(4), rng.choice(TAILS), rng.random() < 0.5))
         for (code, k, tail, sw) in combos:
-            cfg = cl.Cfg(rt=50000, p2=1000, p2s=5000, cb=True, exc=(sw, True, True))
-            client, conn = cl.make_client(cfg, extra=c.config())
-            state = {'first': None}
+            # the edition the client enforces must not matter: a code the configured edition does not list is still a negative response
+            for std in ([rng.choice([2006, 2013, 2020, 2020])] if 'standard_version' not in c.cfg else [None]) + [2020]:
+                cfg = cl.Cfg(rt=50000, p2=1000, p2s=5000, cb=True, exc=(sw, True, True), std=std if std is not None else 2020)
+                client, conn = cl.make_client(cfg, extra=c.config())
+                state = {'first': None}
 
-            def responder(p, state=state, code=code, k=k, tail=tail):
-                if state['first'] is None:
-                    state['first'] = p
-                sid = p[0]
-                return [(10 * (i + 1), bytes([0x7F, sid, 0x78])) for i in range(k)] + [(10 * (k + 1), bytes([0x7F, sid, code]) + tail)]
-            conn.responder = responder
-            how, verdict, flags, payload, exc, r = cl.observe_outer(conn, lambda: c.invoke(client))
+                def responder(p, state=state, code=code, k=k, tail=tail):
+                    if state['first'] is None:
+                        state['first'] = p
+                    sid = p[0]
+                    return [(10 * (i + 1), bytes([0x7F, sid, 0x78])) for i in range(k)] + [(10 * (k + 1), bytes([0x7F, sid, code]) + tail)]
+                conn.responder = responder
+                how, verdict, flags, payload, exc, r = cl.observe_outer(conn, lambda: c.invoke(client))
+                if state['first'] is not None:
+                    break                       # (a call the chosen edition refuses locally is repeated under 2020)
+            s.count('edition %s' % client.config['standard_version'])
             log = list(conn.log)
             frame = state['first']
             if frame is None:
@@ -71,7 +76,7 @@ def suite_call(ctx):
             lines.append(line)
             impl.append('log=%s how=%s verdict=%s flags=%s' % (cl.fmt_log(log), how, verdict, flags))
             # ---- P_spec on the implementation
-            rec = {'site': c.name, 'call': c.desc(), 'code': code, 'k': k, 'tail': tail.hex(), 'exception_on_negative_response': sw, 'input': line}
+            rec = {'site': c.name, 'call': c.desc(), 'code': code, 'k': k, 'tail': tail.hex(), 'exception_on_negative_response': sw, 'standard_version': client.config['standard_version'], 'input': line}
             ncb = sum(1 for op in log if op[0] == 'callback')
             nsend = sum(1 for op in log if op[0] == 'send')
             if code == 0x78:
